@@ -371,6 +371,37 @@ pub mod onion {
 		)
 	}
 
+	/// `get_htlc_forward_failure` (channelmanager.rs): what a node sends back for an HTLC, as the
+	/// introduction node of a blinded path (`Some(true)`), a node inside one (`Some(false)`) or
+	/// neither (`None`). `downstream` = the failure received from the next hop (else the node fails
+	/// the HTLC itself with `failure_code` / `failure_data`). `Ok` = update_fail_htlc packet,
+	/// `Err` = (failure_code, sha256_of_onion) of an update_fail_malformed_htlc.
+	pub fn htlc_forward_failure(
+		blinded: Option<bool>, downstream: Option<(Vec<u8>, Option<AttributionData>)>,
+		failure_code: u16, failure_data: &[u8], hold_time: u32, shared_secret: &[u8; 32],
+	) -> Result<(Vec<u8>, Option<AttributionData>), (u16, [u8; 32])> {
+		use crate::ln::channelmanager::BlindedFailure;
+		let mut reason = match downstream {
+			Some((data, attribution_data)) => HTLCFailReason::from_msg(&UpdateFailHTLC {
+				channel_id: ChannelId([0; 32]),
+				htlc_id: 0,
+				reason: data,
+				attribution_data,
+			}),
+			None => HTLCFailReason::reason(failure_code.into(), failure_data.to_vec()),
+		};
+		reason.set_hold_time(hold_time);
+		let bf = blinded.map(|intro| {
+			if intro {
+				BlindedFailure::FromIntroductionNode
+			} else {
+				BlindedFailure::FromBlindedNode
+			}
+		});
+		crate::ln::channelmanager::verif_get_htlc_forward_failure(&bf, &reason, shared_secret)
+			.map(|p| (p.data, p.attribution_data))
+	}
+
 	/// The fields of `DecodedOnionFailure` (crate-private) the sender learns from a failure.
 	pub struct DecodedFailure {
 		pub short_channel_id: Option<u64>,
